@@ -43,6 +43,11 @@ def strip(n):
     return n
 
 
+def isnull(n):
+    """an absent child (clang prints `{}`; the index adds its location keys)"""
+    return not n or 'kind' not in n
+
+
 def walk(n, skip_switch=False):
     yield n
     for c in n.get('inner', []) or []:
@@ -67,7 +72,7 @@ class ImpTranslator(FullTranslator):
                 self.bad(n, 'assignment to %s, which is not a local variable' % r.get('name'))
             d = self.ix.by_id.get(r['id'])
             q = (d or {}).get('type', {}).get('qualType', '')
-            if '&' in q or '*' in q:
+            if '&' in q or ('*' in q and e.ty.kind != 'ptr'):
                 self.bad(n, 'assignment through the reference / pointer %s' % r.get('name'))
             return r['id'], [], e.ty, None
         if k == 'CXXThisExpr':
@@ -77,6 +82,11 @@ class ImpTranslator(FullTranslator):
             return 'self', [], env.self_ty, None
         if k == 'UnaryOperator' and n.get('opcode') == '*' and strip(n['inner'][0]).get('kind') == 'CXXThisExpr':
             return self.lvalue(n['inner'][0], env)
+        if k == 'UnaryOperator' and n.get('opcode') == '*':
+            cid = self.cell_ref(n['inner'][0], env)
+            if cid is not None:                      # `*data` with `const char** data`: the cursor cell
+                nm, ty = env.vars[cid]
+                return cid, [], Ty('ptr', 8, ty.signed), None
         if k == 'ImplicitCastExpr' and n.get('castKind') in ('DerivedToBase', 'UncheckedDerivedToBase'):
             root, path, ty, bits = self.lvalue(n['inner'][0], env)
             dst = self.resolve_str(re.sub(r'\*\s*$', '', (n['type'].get('desugaredQualType') or n['type']['qualType'])), n)
@@ -98,6 +108,15 @@ class ImpTranslator(FullTranslator):
                     return root, path + [nm], ft, fb
             self.bad(n, 'member %s of %s is outside the translated subset' % (n.get('name'), ty.rec['_q']))
         self.bad(n, 'assignment target of kind %s' % k)
+
+    def cell_ref(self, n, env):
+        """the decl id if n is (an rvalue read of) the function's `const char**` parameter"""
+        n = strip(n)
+        while n.get('kind') == 'ImplicitCastExpr' and n.get('castKind') in ('LValueToRValue', 'NoOp'):
+            n = strip(n['inner'][0])
+        if n.get('kind') == 'DeclRefExpr' and env.fx.cell is not None and n['referencedDecl']['id'] == env.fx.cell and env.fx.cell in env.vars:
+            return env.fx.cell
+        return None
 
     def root_term(self, root, env):
         return env.self_name if root == 'self' else (env.vars[root][0] if root in env.vars else env.free[root][0])
@@ -124,9 +143,9 @@ class ImpTranslator(FullTranslator):
 
     def stored_value(self, e, ty, bits, n):
         """the value a scalar lvalue of type ty (bit-field width bits) holds after `lv = e`"""
-        if ty.kind not in ('int', 'bool'):
-            self.bad(n, 'assignment to an lvalue of type %r (only integers and bool)' % ty)
-        if e.ty.kind != ty.kind or (ty.kind == 'int' and (e.ty.w, e.ty.signed) != (ty.w, ty.signed)):
+        if ty.kind not in ('int', 'bool', 'ptr'):
+            self.bad(n, 'assignment to an lvalue of type %r (only integers, bool and character cursors)' % ty)
+        if e.ty.kind != ty.kind or (ty.kind in ('int', 'ptr') and (e.ty.w, e.ty.signed) != (ty.w, ty.signed)):
             self.bad(n, 'assigned value of type %r differs from the target type %r without a cast node' % (e.ty, ty))
         if bits is not None and ty.kind == 'int':
             if ty.signed or ty.w is None:
@@ -148,6 +167,9 @@ class ImpTranslator(FullTranslator):
         if k == 'CompoundAssignOperator':
             op = s['opcode'][:-1]
             root, path, ty, bits = self.lvalue(s['inner'][0], env)
+            if ty.kind == 'ptr' and op in ('+', '-'):
+                r = self.ptr_arith(s, op, self.ex(s['inner'][0], env), self.ex(s['inner'][1], env))
+                return ('set', [(root, path, self.stored_value(r, ty, bits, s))], r.defd)
             if ty.kind != 'int' or ty.w is None:
                 self.bad(s, 'compound assignment to %r' % ty)
             cur = self.ex(s['inner'][0], env)
@@ -161,6 +183,10 @@ class ImpTranslator(FullTranslator):
             return ('set', [(root, path, self.stored_value(r, ty, bits, s))], r.defd)
         if k == 'UnaryOperator' and s.get('opcode') in ('++', '--'):
             root, path, ty, bits = self.lvalue(s['inner'][0], env)
+            if ty.kind == 'ptr':
+                cur = self.ex(s['inner'][0], env)
+                t = '%s %s 1' % (paren(cur.term), s['opcode'][0])
+                return ('set', [(root, path, t)], conj(cur.defd, '%sptrOk buf (%s)' % (SEM, t)))
             if ty.kind != 'int' or ty.w is None:
                 self.bad(s, '%s on %r' % (s['opcode'], ty))
             cur = self.ex(s['inner'][0], env)
@@ -233,6 +259,9 @@ class ImpTranslator(FullTranslator):
         if it.fuel:
             env.fx.fuel = True
             pre.append('fuel')
+        if it.buf:
+            env.buf = True
+            pre.append('buf')
         put = 'fun _ => %s' % env.self_name
         if it.state_ty is not None:
             if obj is None:
@@ -251,7 +280,7 @@ class ImpTranslator(FullTranslator):
         env.fx.calls_fx = True
         argt = ''.join(' ' + p for p in pre) + ''.join(' ' + paren(a.term) for a in args)
         dd = conj(*([a.defd for a in args] + [None if it.defd_trivial else '%s_defined%s' % (it.full, argt)]))
-        return {'term': it.full + argt, 'put': put, 'ret': it.ret, 'defd': dd, 'node': n}
+        return {'term': it.full + argt, 'put': put, 'ret': it.ret, 'defd': dd, 'node': n, 'item': it, 'argn': argn}
 
     def bind_call(self, call, env, s, fn, k):
         """k(env, E of the result) -> (val, dfd) for the rest"""
@@ -558,13 +587,13 @@ class ImpTranslator(FullTranslator):
             return self.loop_stmt(s['inner'][0], [s['inner'][1]], rest, env, fn, s)
         if k == 'ForStmt':
             inn = s.get('inner', [])
-            if len(inn) != 5 or inn[1]:
+            if len(inn) != 5 or not isnull(inn[1]):
                 self.bad(s, 'for statement with a condition variable')
             init, cond, inc, body = inn[0], inn[2], inn[3], inn[4]
-            if not cond:
+            if isnull(cond):
                 self.bad(s, 'for statement without a condition')
-            loop = {'kind': '_For', 'cond': cond, 'body': [body] + ([inc] if inc else []), 'node': s}
-            return self.block(([init] if init else []) + [loop] + rest, env, fn)
+            loop = {'kind': '_For', 'cond': cond, 'body': [body] + ([] if isnull(inc) else [inc]), 'node': s}
+            return self.block(([] if isnull(init) else [init]) + [loop] + rest, env, fn)
         if k == '_For':
             return self.loop_stmt(s['cond'], s['body'], rest, env, fn, s['node'])
         a = self.assignment(s, env)
@@ -709,6 +738,555 @@ class ImpTranslator(FullTranslator):
             dfd = ('and', c.defd, dfd)
         return val, dfd
 
+
+    # ---- JOIN style (functions with character cursors) ----------------------------------------------
+    # A statement list is translated with ONE copy of every statement: an `if` none of whose branches always
+    # leaves the function delivers the variables its branches assign (`let (a, b) := if c then … else …` when the
+    # branches only assign; `Flow.seq/bind (if c then … else …) (fun (a, b) => rest)` when they can also return /
+    # throw / loop); `if (c) throw …;` guards stay plain `if c then exit else rest`.  Loops are definitions
+    # `f.loop_k fuel buf vars : Flow σ (modified vars) ρ` whose bodies may return and throw.
+
+    EXIT_KINDS = ('ReturnStmt', 'CXXThrowExpr')
+
+    def has_ptr(self, fn):
+        """the function declares a character cursor (parameter or local)"""
+        for x in walk(fn):
+            if x.get('kind') in ('ParmVarDecl', 'VarDecl'):
+                q = x.get('type', {}).get('desugaredQualType') or x.get('type', {}).get('qualType', '')
+                if '*' in q and re.search(r'\bchar\b', q) and '(' not in q:
+                    return True
+        return False
+
+    def always_exits(self, stmts):
+        for st in stmts:
+            st = strip(st) if st.get('kind') in PASS_THROUGH else st
+            k = st.get('kind')
+            if k in self.EXIT_KINDS:
+                return True
+            if k == 'CompoundStmt' and self.always_exits(st.get('inner', [])):
+                return True
+            if k == 'IfStmt':
+                inn = st.get('inner', [])
+                if len(inn) == 3 and self.always_exits([inn[1]]) and self.always_exits([inn[2]]):
+                    return True
+        return False
+
+    def assigned_keys(self, nodes, env):
+        """syntactic over-approximation of the variables visible in env that the statements assign (declaration order)"""
+        keys = []
+
+        def root(x):
+            x = strip(x)
+            k = x.get('kind')
+            if k == 'DeclRefExpr':
+                return x['referencedDecl']['id']
+            if k == 'UnaryOperator' and x.get('opcode') == '*':
+                return self.cell_ref(x['inner'][0], env)
+            if k in ('MemberExpr', 'ImplicitCastExpr'):
+                return root(x['inner'][0])
+            return None
+        for n in nodes:
+            for x in walk(n):
+                k = x.get('kind')
+                tgt = []
+                if (k == 'BinaryOperator' and x.get('opcode') == '=') or k == 'CompoundAssignOperator' or \
+                        (k == 'UnaryOperator' and x.get('opcode') in ('++', '--')):
+                    tgt = [root(x['inner'][0])]
+                elif self.is_std_swap(x):
+                    tgt = [root(x['inner'][1]), root(x['inner'][2])]
+                elif k in ('CallExpr', 'CXXMemberCallExpr', 'CXXOperatorCallExpr', 'CXXConstructExpr', 'CXXTemporaryObjectExpr'):
+                    for a in x.get('inner', []):
+                        if a and self.cell_ref(a, env) is not None and self.resolve_arg_is_pptr(a):
+                            tgt.append(env.fx.cell)
+                for t in tgt:
+                    if t is not None and t in env.vars and t not in keys:
+                        keys.append(t)
+        keys.sort(key=self.decl_offset)
+        return keys
+
+    def resolve_arg_is_pptr(self, a):
+        q = a.get('type', {}).get('desugaredQualType') or a.get('type', {}).get('qualType', '')
+        return q.count('*') == 2
+
+    def decl_offset(self, rid):
+        return ((self.ix.by_id.get(rid) or {}).get('range', {}).get('begin', {}) or {}).get('offset', 0)
+
+    def state_term(self, env):
+        if env.fx.cell is not None:
+            if env.fx.cell not in env.vars:
+                raise Unsupported('the cursor cell is not visible where the function returns / throws')
+            return env.vars[env.fx.cell][0]
+        return '()'
+
+    def find_hoist(self, s, env):
+        """postfix `x++` / `x--` inside the assignment statement s that can be evaluated as the old value of x with the
+        increment carried out right after the statement: x is a local scalar / cursor that occurs nowhere else in s,
+        and the increment is evaluated unconditionally"""
+        if not ((s.get('kind') == 'BinaryOperator' and s.get('opcode') == '=') or s.get('kind') == 'CompoundAssignOperator'):
+            return []
+        found = []
+
+        def go(n, cond):
+            k = n.get('kind')
+            if k == 'UnaryOperator' and n.get('opcode') in ('++', '--') and n.get('isPostfix') and not cond:
+                t = strip(n['inner'][0])
+                if t.get('kind') == 'DeclRefExpr' and t['referencedDecl']['id'] in env.vars and \
+                        env.vars[t['referencedDecl']['id']][1].kind in ('int', 'ptr'):
+                    found.append((n, t['referencedDecl']['id']))
+                    return
+            c2 = cond or k in ('ConditionalOperator', 'BinaryConditionalOperator', 'LambdaExpr', 'StmtExpr') or \
+                (k == 'BinaryOperator' and n.get('opcode') in ('&&', '||', ','))
+            for c in n.get('inner', []) or []:
+                if c:
+                    go(c, c2)
+        go(s, False)
+        out = []
+        for n, rid in found:
+            refs = [x for x in walk(s) if x.get('kind') == 'DeclRefExpr' and x['referencedDecl']['id'] == rid]
+            d = self.ix.by_id.get(rid) or {}
+            q = d.get('type', {}).get('qualType', '')
+            if len(refs) == 1 and '&' not in q and 'id' in n:
+                out.append(n)
+        return out
+
+    def jleaf(self, mode, kind, env, term):
+        lf = ('leaf', kind, self.state_term(env), term)
+        return ('jexit', lf) if mode == 'flow' else lf
+
+    def jblock(self, stmts, env, fn, mode, tail):
+        """mode 'out': the value is an Outcome (the statements run to the end of the function); 'flow': a Flow
+        (a branch / loop body; `tail(env)` supplies what follows the last statement) -> (val, dfd)"""
+        if not stmts:
+            return tail(env)
+        s, rest = stmts[0], stmts[1:]
+        k = s.get('kind')
+        if k == 'NullStmt':
+            return self.jblock(rest, env, fn, mode, tail)
+        if k in PASS_THROUGH and k != 'ConstantExpr':
+            return self.jblock([s['inner'][0]] + rest, env, fn, mode, tail)
+        if k == 'CompoundStmt':
+            return self.jblock(list(s.get('inner', [])) + rest, env, fn, mode, tail)
+        if k == 'ReturnStmt':
+            if not s.get('inner'):
+                if not self.is_void(fn):
+                    self.bad(s, 'return without a value')
+                env.ret_ty = T_VOID
+                return self.jleaf(mode, 'normal', env, '()'), ('ret', 'true')
+            call = self.fx_call(s['inner'][0], env)
+            if call is not None:
+                def k_ret(env2, res):
+                    if res is None:
+                        env2.ret_ty = T_VOID
+                        return self.jleaf(mode, 'normal', env2, '()'), ('ret', 'true')
+                    self.set_ret(env2, res, s)
+                    return self.jleaf(mode, 'normal', env2, res.term), ('ret', 'true')
+                return self.jcall(call, env, fn, mode, s, k_ret)
+            e = self.ex(s['inner'][0], env)
+            self.set_ret(env, e, s)
+            return self.jleaf(mode, 'normal', env, e.term), ('ret', e.defd or 'true')
+        if k == 'CXXThrowExpr':
+            cls = self.throw_class(s, env)
+            env.fx.throws = True
+            return self.jleaf(mode, 'thrown', env, '"%s"' % cls), ('ret', self.throw_reads(s, env) or 'true')
+        if k in ('CXXStaticCastExpr', 'CStyleCastExpr') and s.get('castKind') == 'ToVoid':
+            if strip(s['inner'][0]).get('kind') in ('IntegerLiteral', 'CXXBoolLiteralExpr'):
+                return self.jblock(rest, env, fn, mode, tail)       # assert() under NDEBUG
+            self.bad(s, 'expression cast to void')
+        if k == 'DeclStmt':
+            decls = [v for v in s.get('inner', []) if v.get('kind') not in ('EnumDecl', 'StaticAssertDecl', 'TypedefDecl', 'TypeAliasDecl', 'UsingDecl')]
+            if not decls:
+                return self.jblock(rest, env, fn, mode, tail)
+            v = decls[0]
+            more = [dict(s, inner=decls[1:])] if len(decls) > 1 else []
+            if v.get('kind') != 'VarDecl' or v.get('storageClass') == 'static' and not v['type']['qualType'].startswith('const'):
+                self.bad(v, 'declaration statement of kind %s' % v.get('kind'))
+            init = [c for c in v.get('inner', []) if is_expr(c)]
+            if not init:
+                self.bad(v, 'local %s without initialiser' % v.get('name'))
+            q = v['type'].get('desugaredQualType') or v['type'].get('qualType', '')
+            if '&' in q:
+                self.bad(v, 'reference-typed local %s in a function translated in join style' % v.get('name'))
+            def bind_v(env2, e):
+                vt = self.resolve(v['type'], v) if 'auto' not in v['type'].get('qualType', '') or 'desugaredQualType' in v['type'] else e.ty
+                if vt.kind not in ('int', 'bool', 'ptr') or vt.kind != e.ty.kind or (vt.kind in ('int', 'ptr') and (vt.w, vt.signed) != (e.ty.w, e.ty.signed)):
+                    self.bad(v, 'local %s: declared type %r, initialiser of type %r' % (v.get('name'), vt, e.ty))
+                nm = env2.fresh(v['name'])
+                env2.vars[v['id']] = (nm, vt)
+                val, dfd = self.jblock(more + rest, env2, fn, mode, tail)
+                lt = self.lean_ty(vt, v)
+                return ('lett', nm, lt, e.term, val), self.jlet_d(nm, lt, e, dfd)
+            call = self.fx_call(init[-1], env)
+            if call is not None:
+                def k_decl(env2, res):
+                    if res is None:
+                        self.bad(v, 'local initialised with a void result')
+                    return bind_v(env2, res)
+                return self.jcall(call, env, fn, mode, s, k_decl)
+            return bind_v(env, self.ex(init[-1], env))
+        if k == 'BinaryOperator' and s.get('opcode') == ',':
+            return self.jblock([s['inner'][0], s['inner'][1]] + rest, env, fn, mode, tail)
+        if k == 'IfStmt':
+            return self.jif(s, rest, env, fn, mode, tail)
+        if k in ('WhileStmt', 'ForStmt', 'DoStmt', '_For'):
+            return self.jloop_stmt(s, rest, env, fn, mode, tail)
+        hoist = self.find_hoist(s, env)
+        for h in hoist:
+            env.hoisted[h['id']] = True
+        try:
+            a = self.assignment(s, env)
+        finally:
+            for h in hoist:
+                env.hoisted.pop(h['id'], None)
+        if a is None and self.is_std_swap(s):
+            a = self.swap(s, env)
+        if a is not None:
+            if a[0] == 'call':
+                root, path, ty, bits = a[2]
+                if root == 'self':
+                    self.bad(s, 'assignment to a member in a function translated in join style')
+
+                def k_set(env2, res):
+                    if res is None:
+                        self.bad(s, 'assignment of a void result')
+                    nm, term = self.store(root, path, self.stored_value(res, ty, bits, s), env2, s)
+                    lt = self.lean_ty(env2.vars[root][1], s)
+                    v_, d_ = self.jblock(rest, env2, fn, mode, tail)
+                    return ('lett', nm, lt, term, v_), (d_ if is_true_blk(d_) else ('lett', nm, lt, term, d_))
+                return self.jcall(a[1], env, fn, mode, s, k_set)
+            sets = a[1]
+            if len(sets) > 1 and len(set(r for r, p_, v in sets)) < len(sets):
+                self.bad(s, 'simultaneous assignment to two parts of the same object')
+            lets = []
+            for r, p_, v in sets:
+                if r == 'self':
+                    self.bad(s, 'assignment to a member in a function translated in join style')
+                nm, term = self.store(r, p_, v, env, s)
+                lets.append((nm, term, self.lean_ty(env.vars[r][1], s)))
+            val, dfd = self.jblock(list(hoist) + rest, env, fn, mode, tail)
+            for nm, term, lt in reversed(lets):
+                val = ('lett', nm, lt, term, val)
+                dfd = dfd if is_true_blk(dfd) else ('lett', nm, lt, term, dfd)
+            if a[2]:
+                dfd = ('and', a[2], dfd)
+            return val, dfd
+        call = self.fx_call(s, env) if is_expr(s) else None
+        if call is not None:
+            return self.jcall(call, env, fn, mode, s, lambda env2, res: self.jblock(rest, env2, fn, mode, tail))
+        if is_expr(s) and k in ('CallExpr', 'CXXMemberCallExpr', 'CXXOperatorCallExpr'):
+            e = self.ex(s, env)                       # a call without effects whose value is discarded
+            val, dfd = self.jblock(rest, env, fn, mode, tail)
+            return val, (('and', e.defd, dfd) if e.defd else dfd)
+        self.bad(s, 'statement of kind %s (join style)' % k)
+
+    def jcall(self, call, env, fn, mode, s, k):
+        """a call of a translated function with effects in a join-style function; k(env, E of the result | None) -> (val, dfd)"""
+        it = call['item']
+        if it.state_ty is not None:
+            self.bad(s, 'call of a member function with effects in a function translated in join style')
+        cell = env.fx.cell
+        if getattr(it, 'cell', False):
+            passed = [a for a, (pn, pt) in zip(call['argn'], it.cparams) if pt.kind == 'pptr']
+            if cell is None or len(passed) != 1 or self.cell_ref(passed[0], env) is None or not self.resolve_arg_is_pptr(passed[0]):
+                self.bad(s, 'the `const char**` argument of the call is not the `const char**` parameter of the caller')
+            put = 'fun t_ => t_'
+        else:
+            if mode == 'flow' and cell is not None:
+                self.bad(s, 'call of a function with effects but without a cursor cell inside a branch / loop of a function with one')
+            put = 'fun _ => %s' % self.state_term(env)
+        env.fx.calls_fx = True
+        sn, rn = env.fresh('st'), env.fresh('r')
+        if cell is not None:
+            env.vars[cell] = (sn, env.vars[cell][1])
+            env.fx.writes = True
+        res = E(rn, call['ret']) if call['ret'] is not None and call['ret'].kind != 'void' else None
+        val, dfd = k(env, res)
+        if mode == 'out':
+            v = ('bind', call['term'], put, sn, rn, val)
+        else:
+            v = ('jcallf', call['term'], sn, rn, val)
+        d = ('bindB', call['term'], put, sn, rn, dfd)
+        if call['defd']:
+            d = ('and', call['defd'], d)
+        return v, d
+
+    @staticmethod
+    def jlet_d(nm, lt, e, dfd):
+        d = dfd if is_true_blk(dfd) else ('lett', nm, lt, e.term, dfd)
+        return ('and', e.defd, d) if e.defd else d
+
+    def throw_reads(self, t, env):
+        """definedness of the reads the operand of a throw performs: a cursor handed to std::string (`std::string + p`,
+        `std::string{p}`) is read as a C string"""
+        ds = []
+        for x in walk(t):
+            if x.get('kind') in ('CXXOperatorCallExpr', 'CXXConstructExpr', 'CXXTemporaryObjectExpr', 'CallExpr', 'CXXMemberCallExpr') and \
+                    'basic_string' in (x.get('type', {}).get('desugaredQualType') or x.get('type', {}).get('qualType', '')):
+                for a in x.get('inner', []):
+                    y = strip(a) if a else {}
+                    while y.get('kind') == 'ImplicitCastExpr' and y.get('castKind') in ('LValueToRValue', 'NoOp'):
+                        y = strip(y['inner'][0])
+                    ok = y.get('kind') == 'DeclRefExpr' or (y.get('kind') == 'UnaryOperator' and y.get('opcode') == '*')
+                    if ok and (a.get('type', {}).get('desugaredQualType') or a.get('type', {}).get('qualType', '')).count('*') == 1:
+                        try:
+                            e = self.ex(a, env)
+                        except Unsupported:
+                            continue
+                        if e.ty.kind == 'ptr':
+                            ds.append(conj(e.defd, '%scstrOk buf %s' % (SEM, paren(e.term))))
+        return conj(*ds)
+
+    def jnames(self, keys, env):
+        return [env.vars[k_][0] for k_ in keys]
+
+    def jrebind(self, keys, env):
+        """fresh versions of the variables a merge / loop delivers -> names"""
+        names = []
+        for k_ in keys:
+            old, ty = env.vars[k_]
+            nm = env.fresh(re.sub(r'_\d+$', '', old))
+            env.vars[k_] = (nm, ty)
+            names.append(nm)
+        env.fx.writes = True
+        return names
+
+    def jif(self, s, rest, env, fn, mode, tail):
+        if s.get('hasInit') or s.get('hasVar') or s.get('isConstexpr'):
+            self.bad(s, 'if statement with initialiser / condition variable / constexpr')
+        inn = s.get('inner', [])
+        c = self.ex(inn[0], env)
+        if c.ty.kind != 'bool':
+            self.bad(s, 'condition is not of type bool')
+        A, B = [inn[1]], ([inn[2]] if len(inn) > 2 else [])
+        ea, eb = self.always_exits(A), self.always_exits(B)
+
+        def guard(dfd):
+            return ('and', c.defd, dfd) if c.defd else dfd
+        if ea or eb or not rest:
+            tv, td = self.jblock(A + ([] if ea else rest), env.copy(), fn, mode, tail)
+            ev, ed = self.jblock(B + ([] if eb else rest), env.copy(), fn, mode, tail)
+            dfd = ('ret', 'true') if is_true_blk(td) and is_true_blk(ed) else ('if', c.term, td, ed)
+            return ('if', c.term, tv, ev), guard(dfd)
+        keys = self.assigned_keys(A + B, env)
+
+        def t_next(e2):
+            return ('jnext', self.jnames(keys, e2)), ('ret', 'true')
+        tv, td = self.jblock(A, env.copy(), fn, 'flow', t_next)
+        ev, ed = self.jblock(B, env.copy(), fn, 'flow', t_next)
+        names = self.jrebind(keys, env)
+        rv, rd = self.jrest(rest, env, fn, mode, tail)
+        bd = ('ret', 'true') if is_true_blk(td) and is_true_blk(ed) else ('if', c.term, td, ed)
+        merged = ('if', c.term, tv, ev)
+        if self.tree_pure(tv) and self.tree_pure(ev):
+            val = ('letp', names, merged, rv)
+            dfd = ('conj', [bd, ('ret', 'true') if is_true_blk(rd) else ('letp', names, merged, rd)])
+        else:
+            env.fx.flow = True
+            fty = '%sFlow %s (%s) «rho»' % (SEM, 'Int' if env.fx.cell is not None else 'Unit',
+                                          ' × '.join(self.lean_ty(env.vars[k_][1], s) for k_ in keys) or 'Unit')
+            val = ('jbind', 'seq' if mode == 'out' else 'bind', merged, names, rv)
+            dfd = ('conj', [bd, ('ret', 'true') if is_true_blk(rd) else ('jand', merged, names, rd, fty)])
+        return val, guard(dfd)
+
+    COMPOUND = ('IfStmt', 'WhileStmt', 'ForStmt', 'DoStmt', 'SwitchStmt')
+
+    def jrest(self, rest, env, fn, mode, tail):
+        """the statements after a merge / loop: at function level, when they contain further control flow, they become a
+        JOIN POINT `f.k_n [fuel] buf vars : Outcome σ ρ` of their own (so that a tie can be proved stage by stage)"""
+        if mode != 'out' or not any(x.get('kind') in self.COMPOUND for n in rest for x in walk(n)):
+            return self.jblock(rest, env, fn, mode, tail)
+        self._k_n = getattr(self, '_k_n', {})
+        key = fn.get('id')
+        self._k_n[key] = self._k_n.get(key, 0) + 1
+        base = '%s.k_%d' % (self.local_name(fn), self._k_n[key])
+        declared = set(x['id'] for n in rest for x in walk(n) if x.get('kind') == 'VarDecl')
+        ids = []
+        for n in rest:
+            for x in walk(n):
+                if x.get('kind') == 'DeclRefExpr' and x['referencedDecl']['kind'] in ('VarDecl', 'ParmVarDecl'):
+                    rid = x['referencedDecl']['id']
+                    if rid not in declared and rid not in ids and rid in env.vars:
+                        ids.append(rid)
+        if env.fx.cell is not None and env.fx.cell not in ids and env.fx.cell in env.vars:
+            ids.append(env.fx.cell)
+        ids.sort(key=self.decl_offset)
+        fuel = any(x.get('kind') in ('WhileStmt', 'ForStmt', 'DoStmt') for n in rest for x in walk(n))
+        kenv = Env(None, extract=False)
+        kenv.used = set(['self', 'fuel', 'buf'])
+        kenv.fx = env.fx
+        kenv.join = True
+        kenv.hoisted = env.hoisted
+        params = []
+        for rid in ids:
+            ty = env.vars[rid][1]
+            if ty.kind not in ('int', 'bool', 'ptr', 'pptr'):
+                self.bad(rest[0], 'variable of type %r live at a join point' % ty)
+            nm = kenv.fresh(self.ix.by_id[rid].get('name') or 'v')
+            kenv.vars[rid] = (nm, ty)
+            params.append((rid, nm, ty))
+        val, dfd = self.jblock(rest, kenv, fn, 'out', tail)
+        env.buf = True
+        sig = (' (fuel : Nat)' if fuel else '') + ' (buf : %sBuf)' % SEM + ''.join(' (%s : %s)' % (nm, self.lean_ty(ty, rest[0])) for rid, nm, ty in params)
+        st = 'Int' if env.fx.cell is not None else 'Unit'
+        ctx = {'eff': True}
+        first = rest[0]
+        first.setdefault('_file', fn.get('_file'))
+        text = '/-- %s: the statements of `%s` from here to its end, as a function of the variables they read (join point) -/\n' % (
+            self.where(first), fn.get('_q'))
+        text += 'def %s%s : %s %s «rho» :=\n%s\n' % (base, sig, OUT, paren(st), self.render(val, 2, ctx))
+        text += '/-- no undefined behaviour from here to the end of the function -/\n'
+        text += 'def %s_defined%s : Bool :=\n%s' % (base, sig, self.render(dfd, 2, ctx))
+        area = self.area_of(fn)
+        it = Item(area, base, text, 'kont', first, '')
+        it.params = [(nm, ty) for rid, nm, ty in params]
+        it.cparams, it.effectful, it.fuel, it.state_ty = it.params, True, fuel, None
+        it.ret, it.defd_trivial, it.uses_self, it.buf = None, False, False, True
+        it.rho_of = fn.get('id')
+        self.add(('kont', area, base), it)
+        env.fx.flow = True
+        if fuel:
+            env.fx.fuel = True
+        args = (' fuel' if fuel else '') + ' buf' + ''.join(' ' + env.vars[rid][0] for rid, nm, ty in params)
+        return ('ret', it.full + args), ('ret', '%s_defined%s' % (it.full, args))
+
+    def tree_pure(self, t):
+        if t[0] == 'jnext':
+            return True
+        if t[0] == 'let':
+            return self.tree_pure(t[3])
+        if t[0] == 'lett':
+            return self.tree_pure(t[4])
+        if t[0] == 'letp':
+            return self.tree_pure(t[3])
+        if t[0] == 'if':
+            return self.tree_pure(t[2]) and self.tree_pure(t[3])
+        return False
+
+    def jloop_stmt(self, s, rest, env, fn, mode, tail):
+        k = s.get('kind')
+        inn = s.get('inner', [])
+        if k == 'WhileStmt':
+            if s.get('hasVar') or len(inn) != 2:
+                self.bad(s, 'while with a condition variable')
+            cond, body, node = inn[0], [inn[1]], s
+        elif k == 'DoStmt':
+            if len(inn) != 2:
+                self.bad(s, 'do statement of unexpected shape')
+            for x in walk(inn[0]):
+                if x.get('kind') in ('BreakStmt', 'ContinueStmt'):
+                    self.bad(x, '%s inside a do body' % x['kind'])
+            # `do B while (c);` = `B; while (c) B`
+            return self.jblock([inn[0], {'kind': '_For', 'cond': inn[1], 'body': [inn[0]], 'node': s}] + rest, env, fn, mode, tail)
+        elif k == 'ForStmt':
+            if len(inn) != 5 or not isnull(inn[1]):
+                self.bad(s, 'for statement with a condition variable')
+            if isnull(inn[2]):
+                self.bad(s, 'for statement without a condition')
+            loop = {'kind': '_For', 'cond': inn[2], 'body': [inn[4]] + ([] if isnull(inn[3]) else [inn[3]]), 'node': s}
+            return self.jblock(([] if isnull(inn[0]) else [inn[0]]) + [loop] + rest, env, fn, mode, tail)
+        else:
+            cond, body, node = s['cond'], s['body'], s['node']
+        self._loop_n = getattr(self, '_loop_n', {})
+        self._loop_names = getattr(self, '_loop_names', {})
+        key = fn.get('id')
+        if (key, node['id']) not in self._loop_names:
+            self._loop_n[key] = self._loop_n.get(key, 0) + 1
+            self._loop_names[(key, node['id'])] = '%s.loop_%d' % (self.local_name(fn), self._loop_n[key])
+        base = self._loop_names[(key, node['id'])]
+        it, params, modified = self.jloop_def(cond, body, env, fn, base, node)
+        args = ' fuel buf' + ''.join(' ' + self.root_term(rid, env) for rid, nm, ty in params)
+        call = it.full + args
+        names = self.jrebind([m[0] for m in modified], env)
+        rv, rd = self.jrest(rest, env, fn, mode, tail)
+        val = ('jbind', 'seq' if mode == 'out' else 'bind', ('ret', call), names, rv)
+        dfd = ('conj', [('ret', '%s_defined%s' % (it.full, args)), ('ret', 'true') if is_true_blk(rd) else ('jand', ('ret', call), names, rd)])
+        return val, dfd
+
+    def jloop_def(self, cond, body, env, fn, base, doc_node, extra_doc=''):
+        """emit `base fuel buf vars : Flow σ (modified vars) ρ` + `base_defined`; -> (item, params, modified)"""
+        nodes = [cond] + body
+        declared = set(x['id'] for n in nodes for x in walk(n) if x.get('kind') == 'VarDecl')
+        ids, exits = [], False
+        for n in nodes:
+            for x in walk(n):
+                k = x.get('kind')
+                if k in ('BreakStmt', 'ContinueStmt', 'GotoStmt', 'CXXTryStmt', 'LambdaExpr', 'CXXThisExpr'):
+                    self.bad(x, '%s inside a loop body (join style)' % k)
+                exits = exits or k in self.EXIT_KINDS
+                if k == 'DeclRefExpr' and x['referencedDecl']['kind'] in ('VarDecl', 'ParmVarDecl'):
+                    rid = x['referencedDecl']['id']
+                    if rid in declared or rid in ids:
+                        continue
+                    if rid in env.vars or rid in env.free or (env.extract and self.is_local_decl(self.ix.by_id.get(rid))):
+                        ids.append(rid)
+        if exits and env.fx.cell is not None and env.fx.cell not in ids and env.fx.cell in env.vars:
+            ids.append(env.fx.cell)
+        ids.sort(key=self.decl_offset)
+        lenv = Env(None, extract=False)
+        lenv.used = set(['self', 'fuel', 'buf'])
+        lenv.fx = env.fx
+        lenv.join = True
+        lenv.hoisted = env.hoisted
+        params = []
+        for rid in ids:
+            if rid in env.vars:
+                ty = env.vars[rid][1]
+            elif rid in env.free:
+                ty = env.free[rid][1]
+            else:
+                d = self.ix.by_id[rid]
+                ty = self.ex({'kind': 'DeclRefExpr', 'referencedDecl': {'id': rid, 'kind': d['kind'], 'name': d.get('name')},
+                              'type': d['type'], '_file': doc_node.get('_file'), '_line': doc_node.get('_line')}, env).ty
+            if ty.kind not in ('int', 'bool', 'ptr', 'pptr'):
+                self.bad(doc_node, 'loop variable of type %r (join style)' % ty)
+            nm = lenv.fresh(self.ix.by_id[rid].get('name') or 'v')
+            lenv.vars[rid] = (nm, ty)
+            params.append((rid, nm, ty))
+        mkeys = self.assigned_keys(nodes, lenv)
+        modified = [p_ for p_ in params if p_[0] in mkeys]
+        if not modified:
+            self.bad(doc_node, 'loop that modifies none of its variables')
+        c = self.ex(cond, lenv)
+        if c.ty.kind != 'bool':
+            self.bad(doc_node, 'loop condition is not of type bool')
+        env.fx.fuel = True
+        env.buf = True
+
+        def t_back(e2):
+            a = ' fuel buf' + ''.join(' ' + e2.vars[rid][0] for rid, nm, ty in params)
+            return ('ret', base + a), ('ret', base + '_defined' + a)
+        bval, bdfd = self.jblock(list(body), lenv.copy(), fn, 'flow', t_back)
+        ret = self.jtuple([m[1] for m in modified])
+        rty = ' × '.join(self.lean_ty(m[2], doc_node) for m in modified)
+        sig = ' (fuel : Nat) (buf : %sBuf)' % SEM + ''.join(' (%s : %s)' % (nm, self.lean_ty(ty, doc_node)) for rid, nm, ty in params)
+        area = self.area_of(fn)
+        ctx = {'eff': True}
+        st = 'Int' if env.fx.cell is not None else 'Unit'
+        text = '%s\ndef %s%s : %sFlow %s (%s) «rho» :=\n  match fuel with\n  | 0 => .exit .nofuel\n  | fuel + 1 =>\n    if %s then\n%s\n    else\n      .next %s\n' % (
+            self.doc(doc_node, extra_doc), base, sig, SEM, st, rty, c.term, self.render(bval, 6, ctx), ret)
+        dcond = (paren(c.defd) + ' && ') if c.defd else ''
+        text += '/-- no undefined behaviour in the iterations that run within the fuel -/\n'
+        text += 'def %s_defined%s : Bool :=\n  match fuel with\n  | 0 => true\n  | fuel + 1 =>\n    %s(if %s then\n%s\n    else\n      true)\n' % (
+            base, sig, dcond, c.term, self.render(bdfd, 6, ctx))
+        text += '/-- every argument holds a value of its C++ type -/\n'
+        typed = conj(*[self.typed_term(ty, nm) for rid, nm, ty in params]) or 'true'
+        text += 'def %s_typed%s : Bool := %s' % (base, sig.replace(' (fuel : Nat)', '', 1), typed)
+        old = self.items.get(('loop', area, base))
+        if old is not None:
+            if old.text != text:
+                self.bad(doc_node, 'the loop translates differently on two paths that reach it')
+            return old, params, modified
+        it = Item(area, base, text, 'loop', doc_node, self.src.text(doc_node))
+        it.params = [(nm, ty) for rid, nm, ty in params]
+        it.cparams, it.effectful, it.fuel, it.state_ty = it.params, False, True, None
+        it.ret, it.defd_trivial, it.uses_self, it.buf = None, False, False, True
+        it.rho_of = fn.get('id')
+        self.add(('loop', area, base), it)
+        return it, params, modified
+
+    @staticmethod
+    def jtuple(names):
+        return '()' if not names else (names[0] if len(names) == 1 else '(' + ', '.join(names) + ')')
+
     # ---- function emission -----------------------------------------------------------------------
     def _fn(self, d):
         area, local = self.area_of(d), self.local_name(d)
@@ -716,8 +1294,11 @@ class ImpTranslator(FullTranslator):
         is_method = d['kind'] in ('CXXMethodDecl', 'CXXConversionDecl') and d.get('storageClass') != 'static'
         self_ty = Ty('rec', rec=parent) if (is_method or d['kind'] == 'CXXConstructorDecl') and parent is not None and parent.get('kind') in RECORD_KINDS else None
         env = Env(self_ty if is_method else None)
-        env.used.update(['self', 'fuel'])
+        env.used.update(['self', 'fuel', 'buf'])
         env.opaque = getattr(self, 'opaque_for', {}).get(d.get('_q'), ())
+        env.join = d['kind'] != 'CXXConstructorDecl' and self.has_ptr(d)
+        if env.join and (is_method or d['kind'] != 'FunctionDecl'):
+            self.bad(d, 'character cursors in a non-static member function')
         params = []
         for p in d.get('inner', []):
             if p.get('kind') == 'ParmVarDecl':
@@ -725,12 +1306,26 @@ class ImpTranslator(FullTranslator):
                 nm = env.fresh(p.get('name') or 'arg')
                 env.vars[p['id']] = (nm, ty)
                 params.append((nm, ty))
+                if ty.kind in ('ptr', 'pptr'):
+                    env.buf = True
+                if ty.kind == 'pptr':
+                    if env.fx.cell is not None:
+                        self.bad(p, 'two `const char**` parameters (they may alias)')
+                    env.fx.cell = p['id']
         cparams = list(params)
         if d['kind'] == 'CXXConstructorDecl':
             val, dfd, ret = self.ctor_body(d, env, self_ty)
         else:
             body = [c for c in d.get('inner', []) if c.get('kind') == 'CompoundStmt']
-            val, dfd = self.block(list(body[0].get('inner', [])), env, d)
+            if env.join:
+                def t_end(e2):
+                    if not self.is_void(d):
+                        self.bad(d, 'control reaches the end of the function without a return')
+                    e2.ret_ty = T_VOID
+                    return self.jleaf('out', 'normal', e2, '()'), ('ret', 'true')
+                val, dfd = self.jblock(list(body[0].get('inner', [])), env, d, 'out', t_end)
+            else:
+                val, dfd = self.block(list(body[0].get('inner', [])), env, d)
             ret = env.ret_ty or T_VOID
             if ret.kind != 'void' and self.is_void(d):
                 self.bad(d, 'void function returning a value')
@@ -809,23 +1404,33 @@ class ImpTranslator(FullTranslator):
     def emit_fn(self, area, local, d, params, ret, val, dfd, uses_self, extra_doc='', fx=None, state_ty=None, key=None):
         eff = fx is not None and fx.effectful
         fuel = fx is not None and fx.fuel
+        buf = fx is not None and fx.buf
+        cell = fx is not None and fx.cell is not None
         ctx = {'eff': eff}
-        psig = ''.join(' (%s : %s)' % (nm, self.lean_ty(ty, d)) for nm, ty in params)
+        psig = (' (buf : %sBuf)' % SEM if buf else '') + ''.join(' (%s : %s)' % (nm, self.lean_ty(ty, d)) for nm, ty in params)
         sig = (' (fuel : Nat)' if fuel else '') + psig
         typed = conj(*[self.typed_term(ty, nm) for nm, ty in params]) or 'true'
         trivial = is_true_blk(dfd)
         rt = 'Unit' if ret is None or ret.kind == 'void' else self.lean_ty(ret, d)
+        rho = paren(rt)
+        for it0 in self.order:                       # the loops of this function deliver into its return type
+            if getattr(it0, 'rho_of', None) == d.get('id') and '«rho»' in it0.text:
+                it0.text = it0.text.replace('«rho»', rho)
         if eff:
-            st = self.lean_ty(state_ty, d) if state_ty is not None else 'Unit'
+            st = 'Int' if cell else (self.lean_ty(state_ty, d) if state_ty is not None else 'Unit')
             rt = '%s %s %s' % (OUT, paren(st), paren(rt))
+        if cell:
+            extra_doc += (' (state σ = the cursor cell `*%s`: the parameter is its value at the call, `.normal i r` / `.thrown e i` carry its '
+                          'value when the call ends)' % [nm for nm, ty in params if ty.kind == 'pptr'][0])
         text = '%s\ndef %s%s : %s :=\n%s\n' % (self.doc(d, extra_doc), local, sig, rt, self.render(val, 2, ctx))
         text += '/-- no undefined behaviour (and exactness of integer-valued `double` arithmetic) on this input -/\n'
-        text += 'def %s_defined%s : Bool :=\n%s\n' % (local, sig, self.render(dfd, 2, ctx))
+        text += 'def %s_defined%s : Bool :=\n%s\n' % (local, sig, self.render(dfd, 2, ctx).replace('«rho»', rho))
         text += '/-- every argument holds a value of its C++ type -/\n'
         text += 'def %s_typed%s : Bool := %s' % (local, psig, typed)
         it = Item(area, local, text, 'fn', d, self.src.text(d))
         it.params, it.ret, it.defd_trivial, it.uses_self = params, ret, trivial, uses_self
         it.effectful, it.fuel, it.state_ty = eff, fuel, (state_ty if eff else None)
+        it.buf, it.cell = buf, cell
         it.cparams = [p for p in params if p[0] != 'self']
         return self.add(key if key is not None else (d['id'] if not extra_doc else ('x', local)), it)
 
@@ -851,6 +1456,33 @@ class ImpTranslator(FullTranslator):
             if is_true_blk(b[2]):
                 return p + b[1]
             return '%s%s && (\n%s)' % (p, b[1], self.render(b[2], ind + 2, ctx))
+        if t == 'jexit':
+            lf = b[1]
+            if lf[1] == 'normal':
+                return '%s.exit (%s.normal %s %s)' % (p, OUT, lf[2], paren(lf[3]))
+            return '%s.exit (%s.thrown %s %s)' % (p, OUT, lf[3], lf[2])
+        if t == 'lett':
+            return '%slet %s : %s := %s\n%s' % (p, b[1], b[2], b[3], self.render(b[4], ind, ctx))
+        if t == 'jnext':
+            return '%s%s%s' % (p, '' if ctx.get('pure') else '.next ', self.jtuple(b[1]))
+        if t == 'letp':
+            return '%slet %s := (\n%s)\n%s' % (p, self.jtuple(b[1]) if b[1] else '_', self.render(b[2], ind + 2, dict(ctx, pure=True)), self.render(b[3], ind, ctx))
+        if t == 'jbind':
+            return '%s%sFlow.%s (\n%s) (fun %s =>\n%s)' % (p, SEM, b[1], self.render(b[2], ind + 2, ctx), self.jtuple(b[3]) if b[3] else '_',
+                                                         self.render(b[4], ind, ctx))
+        if t == 'jcallf':
+            return '%s%sFlow.call (%s) (fun %s %s =>\n%s)' % (p, SEM, b[1], b[2], b[3], self.render(b[4], ind + 2, ctx))
+        if t == 'jand':
+            asc = (' : %s' % b[4]) if len(b) > 4 else ''
+            return '%s%sFlow.andThen (\n%s%s) (fun %s =>\n%s)' % (p, SEM, self.render(b[1], ind + 2, ctx), asc, self.jtuple(b[2]) if b[2] else '_',
+                                                                self.render(b[3], ind, ctx))
+        if t == 'conj':
+            parts = [x for x in b[1] if not is_true_blk(x)]
+            if not parts:
+                return p + 'true'
+            if len(parts) == 1:
+                return self.render(parts[0], ind, ctx)
+            return p + '(\n' + ') && (\n'.join(self.render(x, ind + 2, ctx) for x in parts) + ')'
         if t == 'bind':
             return '%s%s.bindLift (%s) (%s) (fun %s %s =>\n%s)' % (p, OUT, b[1], b[2], b[3], b[4], self.render(b[5], ind + 2, ctx))
         if t == 'bindB':
